@@ -184,7 +184,8 @@ fn cmd_check(reg: &Registry, bin: &str, args: &Args) -> i32 {
     // evidence
     let exhaustive = !out.capped && machinery.is_empty();
     let mut coverage = vec![
-        ("states", J::Int(out.states.max(out.cases) as i128)),
+        ("states", J::Int((if out.states > 0 { out.states } else { out.cases }) as i128)),
+        ("states_meaning", (if out.states > 0 { "distinct canonical states of the merged BFS machines (stateless parts of this check are counted in complete_histories)" } else { "stateless check: one state per distinct complete history" }).into()),
         ("transitions", J::Int(out.transitions as i128)),
         ("traces_validated_against_impl", J::Int(out.cases as i128)),
         ("samples", J::Arr(if out.samples.is_empty() { vec!["(no sample recorded)".into()] } else { out.samples.clone() })),
